@@ -40,8 +40,12 @@ fn host(idx: usize, name: &str, alts: Vec<String>) -> TlsHostInfo {
 }
 
 pub fn settings(h1: bool, h2: bool, h3: bool, rp: bool) -> Settings {
+    settings_at("127.0.0.1:1".parse().unwrap(), h1, h2, h3, rp)
+}
+
+pub fn settings_at(addr: std::net::SocketAddr, h1: bool, h2: bool, h3: bool, rp: bool) -> Settings {
     let mut b = Settings::builder()
-        .listen_address("127.0.0.1:1")
+        .listen_address(addr)
         .unwrap()
         .listen_protocols(ListenProtocolSettings {
             http1: if h1 { Some(Http1Settings::builder().build()) } else { None },
@@ -218,4 +222,52 @@ pub fn codec(toks: Vec<Tok>) -> Vec<Tok> {
     let rt = tokio::runtime::Builder::new_current_thread().enable_all().build().unwrap();
     let r = rt.block_on(async move { demux::make_tcp_http_codec(f[0] as u8, st) });
     vec![vec![r.is_ok() as u128]]
+}
+
+/// The demultiplexer behind the real listener (`Core::listen` on a loopback port): one real TLS handshake per query.
+/// in : as c05_select
+/// out: [996] | [2] when the host settings are refused, else per query
+///      [9] the SNI cannot be sent by the TLS client | [0] handshake refused | [1, negotiated protocol: 0 none, 1 http/1.1, 2 h2, 9 other]
+pub fn front(toks: Vec<Tok>) -> Vec<Tok> {
+    let f = toks[0].clone();
+    let hs = match hosts(&toks[1..6], f[3] == 1) {
+        Ok(h) => h,
+        Err(_) => return vec![vec![2]],
+    };
+    let rt = tokio::runtime::Builder::new_multi_thread().worker_threads(2).enable_all().build().unwrap();
+    rt.block_on(async move {
+        let f2 = f.clone();
+        let make = move |addr: std::net::SocketAddr| settings_at(addr, f2[0] == 1, f2[1] == 1, f2[2] == 1, f2[3] == 1);
+        drop(hs);
+        let host_toks: Vec<Tok> = toks[1..6].to_vec();
+        let rp_on = f[3] == 1;
+        let Some(ep) = crate::front::start(make, move || hosts(&host_toks, rp_on).unwrap(), None).await else {
+            return vec![vec![996]];
+        };
+        let mut out = vec![];
+        let mut i = 6;
+        while i + 1 < toks.len() {
+            let alpn = decode_alpn(&toks[i]);
+            let sni = String::from_utf8_lossy(&bytes(&toks[i + 1])).to_string();
+            i += 2;
+            if rustls::ServerName::try_from(sni.as_str()).is_err() || sni.parse::<std::net::IpAddr>().is_ok() || alpn.iter().any(|a| a.is_empty()) {
+                out.push(vec![9]);
+                continue;
+            }
+            let offer: Vec<&[u8]> = alpn.iter().map(|a| a.as_slice()).collect();
+            match crate::front::tls_connect(ep.addr, &sni, &offer).await {
+                None => out.push(vec![0]),
+                Some(s) => {
+                    let p = match s.get_ref().1.alpn_protocol() {
+                        None => 0,
+                        Some(b"http/1.1") => 1,
+                        Some(b"h2") => 2,
+                        Some(_) => 9,
+                    };
+                    out.push(vec![1, p]);
+                }
+            }
+        }
+        out
+    })
 }
